@@ -677,7 +677,8 @@ fn main() {
     }
     let thorough = ctx.thorough();
     let samples = Samples::new(4);
-    let samples2 = Samples::new(6);
+    let samples2 = Samples::new(5);
+    let samples3 = Samples::new(2);
 
     // Self-check of the reference on the examples of the documentation and jj's doc comments.
     {
@@ -856,7 +857,53 @@ fn main() {
         })
         .reduce(Tally::default, Tally::add);
 
-    let total = t0.add(t1).add(t2);
+    // ---- level 3: n-ary unions x1 | x2 | x3 | x4 [| x5] (the matcher builder groups the
+    // patterns of a union by type; several globs share or do not share a directory).
+    let mut l3_atoms: Vec<Ast> = [
+        ("file", "a"),
+        ("", "a/b"),
+        ("glob", "*/b"),
+        ("", "*/B"),
+        ("root-glob-i", "a/*"),
+        ("glob", "*"),
+        ("root-file", "b"),
+    ]
+    .into_iter()
+    .map(|(kind, arg)| Ast::Atom(Atom { kind, arg, quote: Quote::Bare }))
+    .collect();
+    l3_atoms.push(Ast::Not(Box::new(Ast::Atom(Atom { kind: "file", arg: "a/b", quote: Quote::Bare }))));
+    let n_atoms3 = l3_atoms.len();
+    let mut l3_jobs: Vec<(usize, Vec<usize>)> = vec![];
+    for c in 0..CWDS.len() {
+        for n in [4usize, 5] {
+            vcommon::enumerate::odometer(&vec![n_atoms3; n], |idx| {
+                l3_jobs.push((c, idx.to_vec()));
+                true
+            });
+        }
+    }
+    let t3 = l3_jobs
+        .par_iter()
+        .map(|(c, idx)| {
+            let cwd = CWDS[*c];
+            let mut t = Tally::default();
+            let mut ast = l3_atoms[idx[0]].clone();
+            for &i in &idx[1..] {
+                ast = bin(BinOp::Or, ast, l3_atoms[i].clone());
+            }
+            let reference = ast.reference(&u, cwd);
+            let text = ast.print(0, Style::Minimal);
+            if idx.iter().collect::<HashSet<_>>().len() == idx.len() && idx[0] == 2 && idx[1] == 5 {
+                samples3.offer(|| json!({"cwd": format!("/ws/{}", cwd.join("/")), "text": text}));
+            }
+            if let Err(f) = check_text(&u, cwd, &ast, &text, false, reference, &mut t) {
+                violation(f, cwd, &ast, &text, false);
+            }
+            t
+        })
+        .reduce(Tally::default, Tally::add);
+
+    let total = t0.add(t1).add(t2).add(t3);
     let icase_effective = icase_effective.into_inner();
     let cwd_sensitive = cwd_sensitive.into_inner();
     let distinct_sets = distinct_sets.into_inner().unwrap().len();
@@ -882,7 +929,8 @@ fn main() {
              quoting, all(), none()), alone via parse() and parse_maybe_bare() and negated. Level 1: every x op y \
              for op in & ~ | over {n_atoms1} atoms ({} kind spellings x {} arguments + all() + none()); one in eight also \
              without whitespace and fully parenthesised. Level 2: ~~x, ~(x op y), ~x op y, x op ~y, (x op1 y) op2 z and \
-             z op2 (x op1 y) printed with minimal parentheses over {n_atoms2} atoms. Every (cwd, string, entry point) \
+             z op2 (x op1 y) printed with minimal parentheses over {n_atoms2} atoms. Level 3: every union x1 | .. | xn, \
+             n = 4, 5, over {n_atoms3} atoms of different pattern types. Every (cwd, string, entry point) \
              is generated once. Each expression is evaluated on {} paths. Non-trivial = accepted expressions whose \
              selected set is neither empty nor the whole universe",
             ARGS.len(),
@@ -890,12 +938,13 @@ fn main() {
             l1_args.len(),
             u.strings.len(),
         ),
-        samples: samples.take().into_iter().chain(samples2.take()).collect(),
+        samples: samples.take().into_iter().chain(samples2.take()).chain(samples3.take()).collect(),
         exhaustive: true,
         extra: [
             ("level0_evaluations".to_string(), json!(t0.evals)),
             ("level1_evaluations".to_string(), json!(t1.evals)),
             ("level2_evaluations".to_string(), json!(t2.evals)),
+            ("level3_evaluations".to_string(), json!(t3.evals)),
             ("accepted_expressions".to_string(), json!(total.accepted)),
             ("expressions_that_must_be_rejected".to_string(), json!(total.must_reject)),
             ("either_outcome_allowed".to_string(), json!(total.may)),
